@@ -114,6 +114,10 @@ where
             parse_fastx_file(filename).unwrap_or_else(|_| panic!("Invalid path/file: {filename}"));
 
         let mut iter_reads = 0;
+        #[cfg(feature = "verif-hooks")]
+        if is_reads {
+            crate::verif_hooks::event("F", &format!("{filename}\t{}", qual.min_count));
+        }
         while let Some(record) = reader.next() {
             if iter_reads % step != 0 {
                 iter_reads += 1;
@@ -139,6 +143,10 @@ where
                         && Ordering::is_eq(self.kmer_filter.filter(&kmer_it)))
                 {
                     let (kmer, base, _rc) = kmer_it.get_curr_kmer();
+                    #[cfg(feature = "verif-hooks")]
+                    if is_reads && crate::verif_hooks::enabled() {
+                        crate::verif_hooks::event("A", &format!("{}", kmer_it.get_hash()));
+                    }
                     if kmer_it.self_palindrome() {
                         self.add_palindrome_to_dict(kmer, base);
                     } else {
@@ -150,6 +158,10 @@ where
                         || (kmer_it.middle_base_qual()
                             && Ordering::is_eq(self.kmer_filter.filter(&kmer_it)))
                     {
+                        #[cfg(feature = "verif-hooks")]
+                        if is_reads && crate::verif_hooks::enabled() {
+                            crate::verif_hooks::event("A", &format!("{}", kmer_it.get_hash()));
+                        }
                         if kmer_it.self_palindrome() {
                             self.add_palindrome_to_dict(kmer, base);
                         } else {
